@@ -28,6 +28,7 @@ type Contract struct {
 	Props     []string
 	Requires  []Clause
 	Ensures   []Clause
+	Defines   []Clause // ghost-event definitions: assumed at return (and at call sites), e.g. "TE(result, typ)"
 	Assigns   []string
 	HasAssign bool
 	Loops     map[int]*LoopSpec
@@ -91,7 +92,7 @@ func NewContractSet() *ContractSet {
 	return &ContractSet{ByFunc: map[string]*Contract{}, Specs: map[string]*SpecFn{}, Defaults: map[string]string{}}
 }
 
-var clauseHead = regexp.MustCompile(`^(requires|ensures|lemma|axiom)(\[[A-Z0-9, ]+\])?\s+(.*)$`)
+var clauseHead = regexp.MustCompile(`^(requires|ensures|lemma|axiom|defines)(\[[A-Z0-9, ]+\])?\s+(.*)$`)
 var loopHead = regexp.MustCompile(`^loop\s+(\d+)\s+(invariant|decreases)(\[[A-Z0-9, ]+\])?\s+(.*)$`)
 var specHead = regexp.MustCompile(`^specfn\s+(\w+)\s*\((.*)\)\s*(\S.*)$`)
 
@@ -298,6 +299,8 @@ func (cs *ContractSet) ParseFile(path, pkgPath string, ext bool) error {
 				cur.Lemmas = append(cur.Lemmas, cl)
 			case "axiom":
 				cur.Axioms = append(cur.Axioms, cl)
+			case "defines":
+				cur.Defines = append(cur.Defines, cl)
 			}
 		default:
 			return fmt.Errorf("%s:%d: cannot parse contract line: %s", path, ln, line)
